@@ -41,7 +41,8 @@ __CPROVER_requires(SHAPE(g_fk) && SHAPE(g_fj) && SHAPE(g_fo) && g_bk.size >= 8 &
 __CPROVER_requires(g_xb == g_lo_r && g_xe == g_hi_r && g_xb_tok == TOK_LO && g_xe_tok == TOK_HI && g_bk.data == TOK_LO && g_ek.data == TOK_HI)
 /* level 0: files are individually well-formed on user keys (needed for the least-fixpoint statement only) */
 __CPROVER_requires(SU(g_fk) <= LU(g_fk) && SU(g_fj) <= LU(g_fj))
-__CPROVER_assigns(FO_WINDOW, CMP_GHOST, VEC_GHOST, g_xb, g_xe, g_xb_tok, g_xe_tok, g_inputs.length, __CPROVER_object_whole(g_inputs.items))
+__CPROVER_assigns(FO_WINDOW, CMP_GHOST, VEC_GHOST, g_r, g_inputs.length, __CPROVER_object_whole(g_inputs.items))
+__CPROVER_ensures(FO_TOKENS)
 /* the range only grows, and only at level 0 */
 __CPROVER_ensures((!g_has_lo || g_xb <= g_lo_r) && (!g_has_hi || g_xe >= g_hi_r))
 __CPROVER_ensures(g_lvl == 0 || (g_xb == g_lo_r && g_xe == g_hi_r))
